@@ -453,8 +453,11 @@ let imod i b a b0 =
   in
   { iv = out; nanf =
   ((||)
-    ((||) ((||) ((||) a.nanf b0.nanf) (is_inf i (lower a)))
-      (is_inf i (upper a))) ((&&) bpos bneg)) }
+    ((||)
+      ((||)
+        ((||) ((||) ((||) a.nanf b0.nanf) (is_inf i (lower a)))
+          (is_inf i (upper a))) (is_inf i (lower b0))) (is_inf i (upper b0)))
+    ((&&) bpos bneg)) }
 
 (** val inanfill : 'a1 bprims -> 'a1 ival -> 'a1 ival -> 'a1 ival **)
 
